@@ -138,7 +138,45 @@ func serviceErrorCode(p *Program, v ssa.Value) (code int64, isServiceError bool,
 		return 0, true, false, nil
 	}
 	n, okc := constInt(cl.Call.Args[0])
+	if !okc {
+		// a status chosen per path: all constants
+		if codes := constIntsOf(cl.Call.Args[0], 0); len(codes) > 0 {
+			return codes[0], true, true, cl
+		}
+	}
 	return n, true, okc, cl
+}
+
+// constIntsOf: the constants v can be when it is a phi (of phis) of integer constants; nil otherwise.
+func constIntsOf(v ssa.Value, depth int) []int64 {
+	if n, ok := constInt(v); ok {
+		return []int64{n}
+	}
+	ph, ok := strip(v).(*ssa.Phi)
+	if !ok || depth > 2 {
+		return nil
+	}
+	var out []int64
+	for _, e := range ph.Edges {
+		if strip(e) == ssa.Value(ph) {
+			continue
+		}
+		cs := constIntsOf(e, depth+1)
+		if cs == nil {
+			return nil
+		}
+		out = append(out, cs...)
+	}
+	return out
+}
+
+// serviceErrorCodes: every status the ServiceError v can carry (nil when not all are constants).
+func serviceErrorCodes(p *Program, v ssa.Value) []int64 {
+	_, isSE, _, cl := serviceErrorCode(p, v)
+	if !isSE || cl == nil {
+		return nil
+	}
+	return constIntsOf(cl.Call.Args[0], 0)
 }
 
 func stageIndex(g predSet) int {
@@ -219,9 +257,18 @@ func ruleC02b(c *Ctx) {
 		}
 		seenStage[stage] = true
 		okCode := false
-		for _, w := range want[stage] {
-			if constCode && code == w {
-				okCode = true
+		if codes := serviceErrorCodes(p, r.Results[1]); constCode && len(codes) > 0 {
+			okCode = true
+			for _, cd := range codes {
+				in := false
+				for _, w := range want[stage] {
+					if cd == w {
+						in = true
+					}
+				}
+				if !in {
+					okCode, code = false, cd
+				}
 			}
 		}
 		c.check(okCode, name, "status for an empty "+stageName[stage]+" stage", p.ipos(r), "code "+itoa(int(code)), "an empty "+stageName[stage]+" stage answers "+itoa(int(code))+", expected one of "+intsString(want[stage]))
